@@ -202,6 +202,29 @@ def impl(case):
             continue
         nd = int(np.ndim(r))
         vals = [float(x) for x in np.asarray(r, dtype=float).reshape(-1)]
+        if (k + j) % 5 == 0:
+            # the very same argument objects a second time: same answer, arguments left as they were
+            try:
+                snap = (list(np.asarray(yt).reshape(-1)), list(np.asarray(yp).reshape(-1)),
+                        None if sw is None else [float(x) for x in np.asarray(sw, dtype=float).reshape(-1)])
+                if fn <= 3:
+                    r2 = f(yt, yp, sample_weight=sw, pos_label=pos)
+                elif fn == 4:
+                    r2 = f(yt, yp, sample_weight=sw) if pos is None else f(yt, yp, pos_label=pos, sample_weight=sw)
+                elif fn == 5:
+                    r2 = f(yt, yp, sample_weight=sw)
+                else:
+                    r2 = f(yt, yp)
+                v2 = [float(x) for x in np.asarray(r2, dtype=float).reshape(-1)]
+                snap2 = (list(np.asarray(yt).reshape(-1)), list(np.asarray(yp).reshape(-1)),
+                         None if sw is None else [float(x) for x in np.asarray(sw, dtype=float).reshape(-1)])
+                same = (len(v2) == len(vals) and all((a == b) or (a != a and b != b) for a, b in zip(vals, v2))
+                        and str(snap) == str(snap2))
+            except Exception:
+                same = False
+            if not same:
+                res.append(["other", "second call with the same argument objects differs or arguments were modified"])
+                continue
         res.append(["ok", vals, nd])
     return res
 
@@ -249,6 +272,10 @@ def compare(case, out, model):
                  "one result per call", "correspondence")]
     for (k, t, p, pos, j, w), o, m in zip(calls, out, model):
         call = f"{name}({t}, {p}, sample_weight={w}, pos_label={'<omitted>' if pos is None else repr(pos)})"
+        if o[0] == "other":
+            add(f"{PID}/{name}/purity/not-a-function-of-its-arguments", f"{call}: {o[1]}",
+                "a second call with the same argument objects gives the same value and leaves them untouched")
+            continue
         if o[0] == "exc":
             if m is not None:
                 add(f"{PID}/{name}/exception/raises-where-defined",
